@@ -14,7 +14,7 @@ import random
 from datetime import date, datetime, time, timedelta, timezone
 
 BOUND = {
-    "quick": "48 RFC property names x permitted value kinds (catalogue of 40 values) x 3 parameter shapes in 3 component nestings; "
+    "quick": "48 RFC property names x permitted value kinds (catalogue of 40 values) x 4 parameter shapes (incl. falsy values) in 3 component nestings; "
              "all catalogue values / homogeneous lists of <= 3 / periods through the constructor contracts; 300 seeded add sequences "
              "of <= 4 calls; both providers",
     "thorough": "same with 2000 seeded add sequences",
@@ -475,8 +475,10 @@ def build_and_check(name, row, kind, value, params, nesting, provider, listed=Fa
     # parameters
     for k, v in (params or {}).items():
         vals = stored if isinstance(stored, list) else [stored]
+        want_text = v.to_ical().decode() if hasattr(v, "to_ical") else v
         for s in vals:
-            if getattr(s, "params", {}).get(k) != v:
+            got_p = getattr(s, "params", {}).get(k)
+            if got_p != v and got_p != want_text:
                 return {"witness": w, "detail": f"parameter {k}={v!r} lost: {getattr(s, 'params', None)!r}"}
     # decoded values
     try:
@@ -507,7 +509,9 @@ def grid(provider, tier, findings, known_seen):
     C = catalogue(provider)
     fails, n = [], 0
     nestings = [("VCALENDAR", "VEVENT", None), ("VCALENDAR", "VTODO", "VALARM"), ("VCALENDAR", "VEVENT", "X-BOX")]
-    pshapes = [{}, {"X-PARAM": "v1"}, {"LANGUAGE": "de", "X-A": "b c"}]
+    from icalendar.prop import vBoolean
+    # (falsy parameter values are values too: an empty text, FALSE)
+    pshapes = [{}, {"X-PARAM": "v1"}, {"LANGUAGE": "de", "X-A": "b c"}, {"X-EMPTY": "", "RSVP": vBoolean(False)}]
     for name, row in spec["properties"].items():
         for kind in kinds_for(row):
             if kind == "BINARY":
